@@ -725,25 +725,28 @@ class ThurstoneMostellerPart:
                     if team_q.rank > team_i.rank:
                         omega += sigma_squared_to_c_iq * v(delta_mu, self.kappa / c_iq)
                         delta += (
-                            (gamma_value * sigma_squared_to_c_iq)
+                            sigma_squared_to_c_iq
                             / c_iq
                             * w(delta_mu, self.kappa / c_iq)
+                            * gamma_value
                         )
                     elif team_q.rank < team_i.rank:
                         omega += -sigma_squared_to_c_iq * v(
                             -delta_mu, self.kappa / c_iq
                         )
                         delta += (
-                            (gamma_value * sigma_squared_to_c_iq)
+                            sigma_squared_to_c_iq
                             / c_iq
                             * w(-delta_mu, self.kappa / c_iq)
+                            * gamma_value
                         )
                     else:
                         omega += sigma_squared_to_c_iq * vt(delta_mu, self.kappa / c_iq)
                         delta += (
-                            (gamma_value * sigma_squared_to_c_iq)
+                            sigma_squared_to_c_iq
                             / c_iq
                             * wt(delta_mu, self.kappa / c_iq)
+                            * gamma_value
                         )
 
                 return omega, delta
